@@ -25,6 +25,7 @@ EXPLANATION = (
     "engine/tables/c03_sites.txt (key | class | reason; class `guard:<name>` re-checks a named structural guard "
     "on every run, class `trusted` is an argument by hand). Everything else is an unproven panic site: a "
     "VIOLATION, or a KNOWN-FINDING when its exact key is listed with the failing input."
+    ' Slice-length requirements are delegated to callers only as far as the crate-internal call chain goes: a PUBLIC function that passes its own slice parameter on is reported (the host may pass anything). Guard kalman_filters_in_lockstep: the running and the wander Kalman filter receive the same absorb_offset_steer / absorb_frequency_steer calls (their time bases stay equal, which is what keeps debug_assert!(time >= filter_time) true for the wander filter).'
 )
 NOT_DECIDED = ("panics inside host-provided Clock/Filter/provider impls; non-termination; float results (floats cannot "
                "panic); extern callees not in the catalogue are assumed non-panicking (listed in the evidence)")
